@@ -6,6 +6,7 @@ package c17
 import (
 	"fmt"
 
+	apiv1 "k8s.io/api/core/v1"
 	metav1 "k8s.io/apimachinery/pkg/apis/meta/v1"
 	"sigs.k8s.io/controller-runtime/pkg/client"
 	gatewayv1 "sigs.k8s.io/gateway-api/apis/v1"
@@ -100,6 +101,75 @@ type world struct {
 	tags    map[string]int
 	ownCtlr string
 	classes map[string]bool // every GatewayClass name in base ∪ X
+	ownSfs  []jNN           // SnippetsFilters of the base scenario that NO route of ours references
+	refSfs  []jNN           // SnippetsFilters of the base scenario that a route of ours references
+	danglingSfNS []string   // namespaces of routes of ours with an ExtensionRef to "sf-elsewhere", which does not exist there
+	aux     map[string]bool
+}
+
+var snippetPool = map[ngfAPI.NginxContext][]string{
+	ngfAPI.NginxContextMain:               {"worker_priority 0;", "worker_rlimit_core 1m;", "timer_resolution 100ms;"},
+	ngfAPI.NginxContextHTTP:               {"aio on;", "tcp_nodelay on;", "reset_timedout_connection on;"},
+	ngfAPI.NginxContextHTTPServer:         {"auth_delay 10s;", "ignore_invalid_headers off;"},
+	ngfAPI.NginxContextHTTPServerLocation: {"limit_rate 1k;", "chunked_transfer_encoding off;"},
+}
+
+var snippetContexts = []ngfAPI.NginxContext{ngfAPI.NginxContextMain, ngfAPI.NginxContextHTTP,
+	ngfAPI.NginxContextHTTPServer, ngfAPI.NginxContextHTTPServerLocation}
+
+// snippetsFilter builds a SnippetsFilter with a random non-empty set of contexts (main/http preferred: those are
+// emitted for every Referenced filter, whichever route references it).
+func (w *world) snippetsFilter(r *rng.R, ns, name string) *ngfAPI.SnippetsFilter {
+	sf := &ngfAPI.SnippetsFilter{ObjectMeta: p.Meta(ns, name, w.nextAge())}
+	for _, c := range snippetContexts {
+		pc := 40
+		if c == ngfAPI.NginxContextMain || c == ngfAPI.NginxContextHTTP {
+			pc = 65
+		}
+		if r.Chance(pc, 100) {
+			sf.Spec.Snippets = append(sf.Spec.Snippets, ngfAPI.Snippet{Context: c, Value: rng.Pick(r, snippetPool[c])})
+			w.tags["sf-context-"+string(c)]++
+		}
+	}
+	if len(sf.Spec.Snippets) == 0 {
+		c := snippetContexts[r.Intn(2)]
+		sf.Spec.Snippets = []ngfAPI.Snippet{{Context: c, Value: rng.Pick(r, snippetPool[c])}}
+		w.tags["sf-context-"+string(c)]++
+	}
+	if r.Chance(25, 100) {
+		sf.Status.Controllers = []ngfAPI.ControllerStatus{{
+			ControllerName: gatewayv1.GatewayController(rng.Pick(r, foreignControllers)),
+			Conditions:     []metav1.Condition{cond("Accepted", "True", "Accepted")},
+		}}
+	}
+	return sf
+}
+
+func extRef(name string) *gatewayv1.LocalObjectReference {
+	return &gatewayv1.LocalObjectReference{Group: ngfAPI.GroupName, Kind: "SnippetsFilter", Name: gatewayv1.ObjectName(name)}
+}
+
+// addExtRef appends an ExtensionRef filter naming SnippetsFilter `name` to a random rule of an HTTPRoute/GRPCRoute.
+func addExtRef(r *rng.R, o client.Object, name string) bool {
+	switch x := o.(type) {
+	case *gatewayv1.HTTPRoute:
+		if len(x.Spec.Rules) == 0 {
+			return false
+		}
+		i := r.Intn(len(x.Spec.Rules))
+		x.Spec.Rules[i].Filters = append(x.Spec.Rules[i].Filters,
+			gatewayv1.HTTPRouteFilter{Type: gatewayv1.HTTPRouteFilterExtensionRef, ExtensionRef: extRef(name)})
+		return true
+	case *gatewayv1.GRPCRoute:
+		if len(x.Spec.Rules) == 0 {
+			return false
+		}
+		i := r.Intn(len(x.Spec.Rules))
+		x.Spec.Rules[i].Filters = append(x.Spec.Rules[i].Filters,
+			gatewayv1.GRPCRouteFilter{Type: gatewayv1.GRPCRouteFilterExtensionRef, ExtensionRef: extRef(name)})
+		return true
+	}
+	return false
 }
 
 // Emphasise modifies the base scenario in place: shared routes (extra parentRef to a foreign Gateway,
@@ -108,7 +178,7 @@ type world struct {
 func Emphasise(r *rng.R, s *scen.Scenario) *world {
 	cfg := scen.DefaultConfig()
 	w := &world{ns: cfg.Namespaces, hosts: cfg.Hostnames[1:], paths: cfg.Paths, tags: s.Tags, age: 500, ownCtlr: s.Opts.Controller,
-		svcs: []string{"svc0", "svc1", "svc2"}, classes: map[string]bool{s.Opts.Class: true}}
+		svcs: []string{"svc0", "svc1", "svc2"}, classes: map[string]bool{s.Opts.Class: true}, aux: map[string]bool{}}
 	for _, o := range s.Objs {
 		if gc, ok := o.(*gatewayv1.GatewayClass); ok {
 			w.classes[gc.Name] = true
@@ -195,17 +265,34 @@ func Emphasise(r *rng.R, s *scen.Scenario) *world {
 		extra = append(extra, usp)
 		w.tags["own-usp"]++
 	}
-	if r.Chance(25, 100) {
-		sf := &ngfAPI.SnippetsFilter{ObjectMeta: p.Meta(rng.Pick(r, w.ns), "sf0", w.nextAge())}
-		sf.Spec.Snippets = []ngfAPI.Snippet{{Context: ngfAPI.NginxContextHTTP, Value: "aio on;"}}
-		if r.Bool() {
-			sf.Status.Controllers = []ngfAPI.ControllerStatus{{
-				ControllerName: gatewayv1.GatewayController(rng.Pick(r, foreignControllers)),
-				Conditions:     []metav1.Condition{cond("Accepted", "True", "Accepted")},
-			}}
-		}
+	if r.Chance(40, 100) {
+		// a SnippetsFilter of ours that NO route of ours references: its snippets must stay off whoever else names it
+		sf := w.snippetsFilter(r, rng.Pick(r, w.ns), "sf0")
 		extra = append(extra, sf)
+		w.ownSfs = append(w.ownSfs, jNN{sf.Namespace, sf.Name})
 		w.tags["snippets-filter"]++
+	}
+	if r.Chance(35, 100) {
+		// SnippetsFilters referenced by routes of ours (Referenced: main/http/server/location includes are generated)
+		for i, o := range w.ownRts {
+			if i >= 2 || !r.Chance(60, 100) {
+				continue
+			}
+			name := fmt.Sprintf("sf-own-%d", i)
+			if addExtRef(r, o, name) {
+				extra = append(extra, w.snippetsFilter(r, o.GetNamespace(), name))
+				w.refSfs = append(w.refSfs, jNN{o.GetNamespace(), name})
+				w.tags["own-route-snippets-filter"]++
+			}
+		}
+	}
+	if r.Chance(25, 100) && len(w.ownRts) > 0 {
+		// a route of ours names a SnippetsFilter that does not exist in ITS namespace (X may hold one of that name elsewhere)
+		o := rng.Pick(r, w.ownRts)
+		if addExtRef(r, o, "sf-elsewhere") {
+			w.danglingSfNS = append(w.danglingSfNS, o.GetNamespace())
+			w.tags["own-route-dangling-extensionref"]++
+		}
 	}
 	for _, o := range s.Objs {
 		if pol, ok := o.(policies.Policy); ok && r.Chance(50, 100) {
@@ -557,6 +644,110 @@ func (w *world) GenX(r *rng.R, opts p.Options) []client.Object {
 		x = append(x, btp)
 		w.tags["x-btp"]++
 		w.tags[fmt.Sprintf("x-btp-variant-%d", variant)]++
+	}
+	// SnippetsFilters that only Routes of X (foreign or unattached) reference, or nobody: their main/http/server/
+	// location snippets must not reach our configuration. Also X routes naming an UNREFERENCED SnippetsFilter of ours.
+	nsf := 0
+	for _, o := range x {
+		kind := p.KindOf(o)
+		if kind != "HTTPRoute" && kind != "GRPCRoute" {
+			continue
+		}
+		switch k := r.Intn(100); {
+		case k < 55:
+			name := fmt.Sprintf("xsf-%d", nsf)
+			if addExtRef(r, o, name) {
+				nsf++
+				sf := w.snippetsFilter(r, o.GetNamespace(), name)
+				if r.Chance(10, 100) {
+					sf.Spec.Snippets = append(sf.Spec.Snippets, sf.Spec.Snippets[0]) // invalid: a context twice
+					w.tags["x-sf-invalid"]++
+				}
+				x = append(x, sf)
+				w.tags["x-sf-referenced-by-foreign-route"]++
+			}
+		case k < 75:
+			for _, own := range w.ownSfs {
+				if own.NS == o.GetNamespace() && addExtRef(r, o, own.Name) {
+					w.tags["x-route-refs-own-unreferenced-sf"]++
+					break
+				}
+			}
+		}
+	}
+	if r.Chance(25, 100) {
+		x = append(x, w.snippetsFilter(r, rng.Pick(r, w.ns), "xsf-lonely"))
+		w.tags["x-sf-unreferenced"]++
+	}
+	// the NAME of a SnippetsFilter that a route of ours references, in ANOTHER namespace: the resolver looks filters
+	// up in the route's namespace only
+	for _, own := range w.refSfs {
+		if !r.Chance(50, 100) {
+			continue
+		}
+		for _, ns := range w.ns {
+			if ns != own.NS && !w.aux["SnippetsFilter/"+ns+"/"+own.Name] {
+				w.aux["SnippetsFilter/"+ns+"/"+own.Name] = true
+				x = append(x, w.snippetsFilter(r, ns, own.Name))
+				w.tags["x-sf-own-name-other-namespace"]++
+				break
+			}
+		}
+	}
+	for _, dns := range w.danglingSfNS {
+		for _, ns := range w.ns {
+			if ns != dns && !w.aux["SnippetsFilter/"+ns+"/sf-elsewhere"] && r.Chance(70, 100) {
+				w.aux["SnippetsFilter/"+ns+"/sf-elsewhere"] = true
+				x = append(x, w.snippetsFilter(r, ns, "sf-elsewhere"))
+				w.tags["x-sf-dangling-name-other-namespace"]++
+				break
+			}
+		}
+	}
+	// objects that only foreign objects reference: the backend Service of the foreign routes (with endpoints and a
+	// ReferenceGrant naming it), the CA ConfigMap of a foreign BackendTLSPolicy, the TLS Secret of a foreign Gateway
+	if r.Chance(50, 100) {
+		ns := rng.Pick(r, w.ns)
+		x = append(x, p.Service(ns, "xsvc0", 80), p.EndpointSlice(ns, "xsvc0", "x0", []int32{80}, "10.9.9.9"))
+		w.tags["x-aux-service"]++
+		if r.Bool() {
+			var from []p.GrantFrom
+			for _, n := range w.ns {
+				from = append(from, p.GrantFrom{Group: gatewayv1.GroupName, Kind: "HTTPRoute", Namespace: n},
+					p.GrantFrom{Group: gatewayv1.GroupName, Kind: "GRPCRoute", Namespace: n})
+			}
+			x = append(x, p.ReferenceGrant(ns, "xgrant", from, []p.GrantTo{{Group: "", Kind: "Service", Name: "xsvc0"}}))
+			w.tags["x-aux-referencegrant"]++
+		}
+	}
+	for _, o := range x {
+		switch v := o.(type) {
+		case *v1alpha3.BackendTLSPolicy:
+			if r.Chance(40, 100) {
+				cert, _ := p.CertPair(7)
+				v.Spec.Validation.WellKnownCACertificates = nil
+				v.Spec.Validation.Hostname = "x.example.com"
+				v.Spec.Validation.CACertificateRefs = []gatewayv1.LocalObjectReference{{Group: "", Kind: "ConfigMap", Name: "xca"}}
+				if !w.aux["ConfigMap/"+v.Namespace+"/xca"] {
+					w.aux["ConfigMap/"+v.Namespace+"/xca"] = true
+					x = append(x, &apiv1.ConfigMap{ObjectMeta: p.Meta(v.Namespace, "xca", 0), Data: map[string]string{"ca.crt": string(cert)}})
+				}
+				w.tags["x-aux-configmap"]++
+			}
+		case *gatewayv1.Gateway:
+			if r.Chance(40, 100) {
+				for i := range v.Spec.Listeners {
+					if v.Spec.Listeners[i].TLS != nil && len(v.Spec.Listeners[i].TLS.CertificateRefs) > 0 {
+						v.Spec.Listeners[i].TLS.CertificateRefs[0].Name = "xtls"
+						if !w.aux["Secret/"+v.Namespace+"/xtls"] {
+							w.aux["Secret/"+v.Namespace+"/xtls"] = true
+							x = append(x, p.TLSSecret(v.Namespace, "xtls", 9))
+						}
+						w.tags["x-aux-secret"]++
+					}
+				}
+			}
+		}
 	}
 	_ = opts
 	return x
